@@ -102,7 +102,15 @@ def _observed(ev):
     return sorted(seen)
 
 
+GAP_NAMES = ("accepted-unwritable:connless-payload-over-1390", "accepted-unwritable:v7-response-token-ffffffff")
+
+
 def key_of(ev, fails):
+    # the recorded findings F3 / F4 of C06 get their stable keys only when nothing else is wrong with the event
+    if len(fails) == 1 and fails[0] in GAP_NAMES and ev.get("k") == "rd":
+        p = ev.get("out", {}).get("p", {})
+        what = ("payload-%d" % len(p.get("data", []))) if p.get("t") == "connless" else p.get("c", "?")
+        return "%s:v%s:%s" % (fails[0], ev.get("v"), what)
     return "%s:v%s:%s:%s:[%s]" % (ev.get("k"), ev.get("v"), _subkind(ev), "+".join(fails), ",".join(_observed(ev)))
 
 
@@ -336,10 +344,11 @@ def run_property(ctx, pid):
         "inverse still shows up here as a failed write->read round trip.",
         "On the model (TLC) a toy run-length codec stands in for Huffman so that both compression branches, expansion beyond a "
         "packet and invalid streams are explored.",
-        "Values outside the writer's domain are not required to round-trip: connless payloads > 1390 bytes (refused with "
-        "TooLongData although the reader accepts up to 1394/1391), 0.7 Connect/Token with response token ffffffff and close reasons "
-        "with NUL or > 127 bytes (the writer asserts / the reader truncates); Chunks(request_resend=false, 0 chunks) reads back with the "
-        "intentional ChunksNoChunks warning.",
+        "C05 quantifies over values the writer is specified for (Expressible): connless payload <= 1390, chunk area (+token) <= "
+        "1397/1393, close reasons NUL-free and <= 127 bytes, 0.7 response tokens != ffffffff; Chunks(request_resend=false, 0 chunks) "
+        "reads back with the intentional ChunksNoChunks warning. C06 demands that every value the reader accepts survives write -> read; "
+        "the two recorded exceptions are the known findings F3 (connless payload 1391..1394 / 1391 accepted, writer refuses) and F4 (0.7 "
+        "Connect/Token with response token ffffffff accepted, writer asserts), reported as KNOWN-FINDING on every run.",
         "Slice provenance (inb), canaries around the scratch buffer, panics and hangs are observations of the harness; TLA+ has no "
         "notion of addresses (DESIGN section 7).",
     ]
